@@ -5,7 +5,7 @@
 //
 // Observation devices (all local to this file, no hooks in /repo):
 //  * GuardAlloc: the allocator handed to spawn_future.  Every block is its own mmap; deallocate
-//    poisons it and makes it PROT_NONE, a SIGSEGV handler records any later access ("use after
+//    makes it PROT_NONE, a SIGSEGV handler records any later access ("use after
 //    free") and re-opens the page so the execution can continue.  Counts allocate/deallocate.
 //  * Tracked: result type whose constructions/destructions are tracked by address.
 //  * Leaf: a manually completed sender; its operation registers itself in the World, the worker
@@ -163,7 +163,8 @@ void World::dealloc(void* p) {
       if (b.freed) { rt::fail("heap state deleted twice"); rt::obs("block.free"); return; }
       b.freed = true; ++frees;
       rt::obs("block.free");
-      if (uaf == 0) memset(b.base, 0xDD, b.len);
+      // the content is left as it is (like a real allocator would): a use after free is recorded by
+      // the SIGSEGV handler and then proceeds on the stale data instead of crashing the harness
       mprotect(b.base, b.len, PROT_NONE);
       return;
     }
